@@ -78,6 +78,18 @@ def specSelect {α : Type} (sel : List Nat) (maxpages : Nat) (start : Nat) (page
   ((pages.zipIdx start).filter
     (fun pi => (sel.isEmpty || sel.contains pi.2) && (maxpages == 0 || pi.2 < maxpages))).map Prod.fst
 
+/-- Page `i` is wanted: `page_numbers` is `None`, or empty, or contains `i`. -/
+def wanted (pagenos : Option (List Int)) (i : Nat) : Bool :=
+  match pagenos with
+  | none => true
+  | some l => l.isEmpty || l.contains (i : Int)
+
+/-- Selection in terms of the arguments of the Python interface: page `i` is wanted when
+`page_numbers` is `None`/empty or contains `i`, and `maxpages` is 0 or above `i`. -/
+def specSelectPy {α : Type} (pagenos : Option (List Int)) (maxpages : Int) (pages : List α) : List α :=
+  ((pages.zipIdx 0).filter
+    (fun pi => wanted pagenos pi.2 && (maxpages == 0 || decide ((pi.2 : Int) < maxpages)))).map Prod.fst
+
 /-- A box given as (left, bottom, right, top). -/
 def Normalised (r : Rect) : Prop := r.1 ≤ r.2.2.1 ∧ r.2.1 ≤ r.2.2.2
 
